@@ -1,6 +1,7 @@
 (** C10 — Backward tracking = forward tracking in the time-mirrored, sign-flipped flow. *)
 From Coq Require Import ZArith QArith List Bool.
 From Ladim Require Import Base.Num Model.Time Model.Sim Proofs.TimeProofs Proofs.SimProofs Proofs.SymmetryProofs Model.Release Proofs.MirrorReleaseProofs Model.ForcingTime Proofs.MirrorForcingProofs.
+From Ladim Require Import Model.Setup Proofs.SimRelProofs Proofs.SetupProofs Proofs.SetupSymProofs.
 Import ListNotations.
 Open Scope Z_scope.
 
@@ -56,6 +57,29 @@ Theorem C10_mirror_bisimulation : forall (V C : Type) rel rel' ff ff' cf cf' tf 
   forall N, cold_run V C rel ff cf tf bf du N = cold_run V C rel' ff' cf' tf' bf' du' N.
 Proof. exact cold_run_ext. Qed.
 Print Assumptions C10_mirror_bisimulation.
+
+(** T5 CLOSED, about whole set-ups (Model/Setup.v; the run is compiled from the files and tables by the
+    component machines): replace the clock by the clock of the opposite direction over the mirrored time axis
+    x |-> 2*start - x, put every frame of every forcing file and every release row at its mirror time and
+    flip the sign of every velocity.  The mirrored set-up is well-formed and its run equals the original run
+    particle for particle and record for record — for a reversed set-up: backward tracking = forward
+    tracking in the time-mirrored, sign-flipped flow, for every frame/file layout and release table.
+    [srel pv pv Z pv_eq r1 r2] (Proofs/SimRelProofs.v) says: neither run crashed; after the last step both hold
+    the same particles in the same order — same release row (tag), same pid, same liveness, values equal up
+    to == on the rationals (position, depth class, age, scalar) —; the same number of particles was released;
+    and the two runs wrote the same number of records, each at the same step with the same (pid, row, values). *)
+Theorem C10_closed_mirror : forall s, setup_ok s = true ->
+  setup_ok (mirror_setup s) = true /\ srel pv pv Z pv_eq (m_run s) (m_run (mirror_setup s)).
+Proof. exact mirror_invariance. Qed.
+Print Assumptions C10_closed_mirror.
+
+Example C10_closed_ex :
+  rev (s_tk ex_setup) = true /\ setup_ok ex_setup = true /\ setup_ok (mirror_setup ex_setup) = true /\
+  s_tk (mirror_setup ex_setup) = {| start := 3600; stop := 7200; dt := 600; ref := 0; rev := false |} /\
+  map (map (fun r : record => fst (fst r))) (s_files (mirror_setup ex_setup)) = [[7200; 6000]; [4800; 3600]] /\
+  show_run (m_run (mirror_setup ex_setup)) = show_run (m_run ex_setup) /\
+  length (recs (m_run ex_setup)) = 3%nat.
+Proof. vm_compute. repeat split. Qed.
 
 Example C10_ex :
   let t := {| start := 3600; stop := 0; dt := 600; ref := 0; rev := true |} in
